@@ -3,6 +3,13 @@
 From TV Require Import Base.I32 Model.Time Proofs.Time.
 Open Scope Z_scope.
 
+(* (0) the rules as written in the source today (read by gen/timelabels.py) have the shape the model
+       hard-codes: `N:` assigns, `+N:` is wrapping_add, a root block starts at 0, a statement applies its
+       own label before its time is recorded, the emitter starts at 0 and tries "cross zero", "decrease
+       -> absolute", "increase -> relative" in this order, the "r"-label and `@ t` conditions *)
+Theorem C13_source_shape_is_modelled : source_shape_ok = true.
+Proof. exact source_shape_is_modelled. Qed.
+
 (* (1) compile direction.  The time recorded for every statement of a program (arbitrarily nested
        blocks, loops, conditional chains, inner functions) is the label arithmetic of the rules
        over the pre-order listing of the program: start at 0, `N:` sets, `+N:` adds (mod 2^32),
